@@ -301,7 +301,7 @@ def task_reparse(L, default, prefix=""):
 
 def main():
     chk = Check("C10", __doc__)
-    LS, LR = (5, 5) if chk.tier == "quick" else (7, 7)
+    LS, LR = (6, 7) if chk.tier == "quick" else (8, 8)
     chk.bounds = {"value alphabet": SIGMA, "strip/restore/add: every value of length": f"0..{LS} without leading/trailing blank",
                   "options": "reuse x enclose_integers x default in {'{','\"'} x field key in {year, title} x with/without prior removal",
                   "int values": "symbolic int 0..40", "re-parse clause: every escape-aware brace-balanced value of length": f"0..{LR}"}
